@@ -117,6 +117,15 @@ class Gen15:
                     return g.call_function(U.linear, (inp, self.param(fo, fi), b, None))
                 return g.call_function(U.linear, (inp, self.param(fo, fi)), dict({"constraint": con if style == "kw" else None}, **({"bias": b} if b is not None else {})))
             return one(one(h, w, 8), 8, w)
+        if r.random() < 0.15:      # TENSOR operands by keyword (TorchDynamo keeps the caller's argument style)
+            if k in ("lin2", "lin3", "linkw"):
+                return g.call_function(F.linear, (), {"input": h, "weight": self.param(8, 8), **({"bias": self.param(8)} if k != "lin2" else {})})
+            if k in ("ulin2", "ulin3", "ulinkw"):
+                return g.call_function(U.linear, (h,), {"weight": self.param(8, 8), "bias": self.param(8), "constraint": "gmean"})
+            if k in ("sdpa", "sdpa_kw"):
+                return g.call_function(F.scaled_dot_product_attention, (), {"query": h, "key": h, "value": g.call_function(torch.tanh, (h,))})
+            if k in ("usdpa", "usdpa_kw"):
+                return g.call_function(U.scaled_dot_product_attention, (h,), {"key": h, "value": h, "mult": 2.0})
         if k == "lin2":
             return g.call_function(F.linear, (h, self.param(8, 8)))
         if k == "lin3":
@@ -522,7 +531,7 @@ def run(rep: Report, tier: str) -> None:
     res = common.run_tlc("SimFormat_MC", "SimFormat_MC.cfg" if quick else "SimFormat_MC_3.cfg", coverage=True, timeout=2400, tag="sfmc")
     common.tlc_must_pass(res, "SimFormat_MC")
     rep.add_tlc(res)
-    for leg in ("bias_kw_ignored", "attn_positional"):
+    for leg in ("bias_kw_ignored", "attn_positional", "kw_operands_unsupported"):
         r = common.run_tlc("SimFormat_MC", f"SimFormat_MC_{leg}.cfg", timeout=300, tag="sfleg")
         common.tlc_must_fail(r, f"SimFormat Legacy={leg}")
         rep.extra.setdefault("l2_refuted_deviations", []).append({"legacy": leg, "violated": r.violated_invariant})
